@@ -42,7 +42,7 @@ def c11Step (_ : Unit) (line : String) : Unit × String :=
         let Δ ← flt; let ts ← flt; let tr ← flt; let tm ← flt; let mf ← flt
         let B := matVec (rowsOf n flat)
         let res := steihaug copysignF B g Δ tm ts tr (cgMaxIter roundF n mf)
-        pure s!"{fmtF res.q} {fmtV res.s} {res.st.i + 1} {nEvalOf res.exit} {fmtV res.st.z} {fmtV res.st.r} {fmtV res.st.d} {if res.exit == .negCurvA || res.exit == .negCurvB then 1 else 0}") r
+        pure s!"{fmtF res.q} {fmtV res.s} {res.st.i + 1} {nEvalOf res.exit} {fmtV res.st.z} {fmtV res.st.r} {fmtV res.st.d} {if res.exit == .negCurvA || res.exit == .negCurvB then fmtF res.dsq else "none"}") r
     | "ntr" :: r => run (do
         let p ← vec
         let n := p.length
